@@ -445,6 +445,14 @@ func main() {
 		"configurations": perCfg, "alphabet_size": len(al),
 		"rule": "for each (database count, connections, commands per connection): BFS over all merges of the connections' command sequences (SELECT with 18 argument forms + wrong arities, SET/GET/DEL/KEYS/EXISTS/APPEND) issued through Manager.Handle on in-memory connections; state = model databases + per-connection selection + remaining budgets; every reply compared with the per-connection model, every database dump compared with its model keyspace",
 	}
+	// second stage: connections that select, write and read at the same time - the real connection
+	// handlers and parsers under the interleaving explorer (engines/concmc, handle.go)
+	if sum, ran, err := rep.ConcStage("C20"); err != nil {
+		fmt.Fprintln(os.Stderr, "dbmc:", err)
+		os.Exit(2)
+	} else if ran {
+		cov["concurrent_stage"] = sum
+	}
 	os.Exit(rep.Finish(cov, []string{"commands are issued one at a time (an interleaving is a merge of the connections' sequences); true simultaneity of SELECT and data commands is covered by C05's race pass"}))
 }
 
